@@ -514,7 +514,7 @@ Print Assumptions C18_cli_args_cast_exact.
       wins); a word without '=' is an ArgumentError; and - maxsplit is 2, not 1 - so is a word whose VALUE contains '=' -- *)
 Theorem C18_cli_args_kv_word : forall (dest : option (list (Cli.str * Cli.str))) (k v w : Cli.str),
   (~ In 61 k -> ~ In 61 v ->
-   Cli.kv_append dest [k ++ 61 :: v] = Ok (Some (kdict_set Cli.str_eqb (opt_or_empty dest) k v))) /\
+   Cli.kv_append dest [k ++ 61 :: v] = Ok (Some (kdict_set PyRt.str_eqb (opt_or_empty dest) k v))) /\
   (~ In 61 w -> Cli.kv_append dest [w] = Err 21) /\
   (~ In 61 k -> In 61 v -> Cli.kv_append dest [k ++ 61 :: v] = Err 21).
 Proof. exact C18Args.kv_word_cases. Qed.
